@@ -88,8 +88,13 @@ WorldSpec gen_world(const std::string& prop, uint64_t run_seed, const GenOpts& o
         w.nev = 1 + (int) r.below((uint64_t) std::min(5, p - 2));
         w.ncv = std::min(p, std::max(w.nev + 1, 2 * w.nev + 1 + (int) r.below(6)));
         w.mclass = weighted(r, {{M_RANDOM, 3}, {M_SEPARATED, 3}, {M_GRADED, 1}, {M_SPARSEPAT, 2}});
+        // the solver works on the Gram matrix: in single precision graded spectra lose the small singular values
+        if (w.scalar == S_FLOAT && w.mclass == M_GRADED) w.mclass = M_SEPARATED;
         w.variant = (int) r.below(2) | ((int) r.below(2) << 3);
         w.scale = r.chance(0.5) ? 1.0 : std::pow(10.0, r.real(-3, 3));
+        // single precision: the convergence test max(eps^(2/3), theta) acts on the Gram matrix (theta = sigma^2);
+        // down-scaled inputs fall below its absolute floor, which is an input-dimension effect
+        if (w.scalar == S_FLOAT && w.scale < 1.0) w.scale = 1.0 / w.scale;
         w.mseed = r.next();
         return w;
     }
@@ -232,7 +237,7 @@ std::vector<Op> gen_script(const std::string& prop, const WorldSpec& w, uint64_t
             c.kind = OP_SVDCOMPUTE;
             double x = r.real01();
             c.maxit = x < 0.15 ? 1 : (x < 0.3 ? 2 + (long) r.below(5) : 1000);
-            c.tol = r.chance(0.3) ? 1e-10 : std::pow(10.0, r.real(w.scalar == S_FLOAT ? -6 : -12, -2));
+            c.tol = r.chance(0.3) ? std::max(1e-10, tol_floor(w.scalar)) : std::pow(10.0, r.real(w.scalar == S_FLOAT ? -6 : -12, -2));
             s.push_back(c);
             if (r.chance(0.6))
             {
@@ -314,6 +319,9 @@ namespace sim {
 Plan gen_plan_for(const std::string& prop, uint64_t run_seed, const GenOpts& o)
 {
     if (prop == "C14") return gen_fault_plan(run_seed, o);
+    if (prop == "C20") return gen_sched_plan(run_seed, o);
+    // C07: half of the runs observe real solver runs, half drive the factorization classes directly
+    if (prop == "C07" && !o.single_shot && (run_seed & 1)) return gen_krylov_plan(run_seed, o);
     return gen_hist_plan(prop, run_seed, o);
 }
 }  // namespace sim
@@ -349,6 +357,135 @@ Plan gen_fault_plan(uint64_t run_seed, const GenOpts& o)
     t.script.push_back(c0);
     p.tasks.push_back(t);
     p.params.set("cap_per_site", o.thorough ? 1500 : 300).set("pairs", o.thorough ? 200 : 24);
+    return p;
+}
+}  // namespace sim
+
+namespace sim {
+// C20: 2..16 tasks with short scripts; operators private, or one shared read-only product wrapper
+Plan gen_sched_plan(uint64_t run_seed, const GenOpts& o)
+{
+    Plan p;
+    p.prop = "C20";
+    p.mode = "sched";
+    p.run_seed = run_seed;
+    Rng r = stream(run_seed, "schedule");
+    Rng rs = stream(run_seed, "script");
+    int T = 2 + (int) r.below(3);
+    if (o.thorough && r.chance(0.4)) T = 2 + (int) r.below(15);
+    p.policy = (int) r.below(4);
+    static const double ps[] = {0.02, 0.1, 0.5};
+    p.policy_p = ps[r.below(3)];
+    p.sched_seed = r.next();
+    const bool shared = r.chance(0.4);
+    GenOpts g = o;
+    g.thorough = false;
+    TaskSpec first;
+    for (int t = 0; t < T; t++)
+    {
+        TaskSpec ts;
+        const uint64_t sub = mix64(run_seed, 0xC20 + (uint64_t) t);
+        if (shared && t > 0)
+        {
+            // same matrix and wrapper as task 0, own (nev, ncv) and script
+            ts.w = first.w;
+            Rng rw = stream(sub, "world");
+            const int nev_hi = std::min(6, ts.w.n - (family_is_general(ts.w.family) ? 3 : 2));
+            ts.w.nev = 1 + (int) rw.below((uint64_t) std::max(1, nev_hi));
+            const int lo = min_ncv(ts.w.family, ts.w.nev);
+            ts.w.ncv = std::min(ts.w.n, lo + (int) rw.below(8));
+            ts.share = 0;
+        }
+        else
+        {
+            if (shared) { static const int sf[] = {F_SYM, F_GEN, F_HERM}; g.force_family = sf[r.below(3)]; }
+            else g.force_family = o.force_family;
+            ts.w = gen_world("C20", sub, g);
+            if (ts.w.n > 30)
+            {
+                ts.w.n = 30;
+                ts.w.ncv = std::min(ts.w.ncv, ts.w.n);
+                ts.w.nev = std::min(ts.w.nev, ts.w.ncv - (family_is_general(ts.w.family) ? 2 : 1));
+                if (ts.w.mclass == M_BLOCKDIAG) ts.w.nblock = std::min(ts.w.nblock, ts.w.n - 1);
+                if (ts.w.mclass == M_LOWRANK) ts.w.rank = std::min(ts.w.rank, ts.w.n);
+            }
+            if (shared) ts.share = 0;  // the owner runs on a view of its own wrapper as well
+        }
+        Op i0 = gen_init(rs, ts.w, false);
+        Op c0 = gen_compute(rs, ts.w, "C20", false);
+        c0.maxit = std::min<long>(c0.maxit, 8);
+        ts.script.push_back(i0);
+        ts.script.push_back(c0);
+        if (rs.chance(0.3))
+        {
+            Op c1 = gen_compute(rs, ts.w, "C20", false);
+            c1.maxit = std::min<long>(c1.maxit, 4);
+            ts.script.push_back(c1);
+        }
+        if (t == 0) first = ts;
+        p.tasks.push_back(ts);
+    }
+    // cross-task isolation: one task's operator fails
+    if (!o.no_faults && r.chance(0.1))
+    {
+        TaskSpec& v = p.tasks[r.below((uint64_t) T)];
+        Fault f;
+        f.target = 0;
+        f.at = 1 + (long) r.below((uint64_t) v.w.ncv);
+        f.type = (int) r.below(3);
+        v.script[1].faults.push_back(f);
+    }
+    return p;
+}
+}  // namespace sim
+
+namespace sim {
+// C07 direct driver: init, extend, up to 12 restarts with exact-Ritz / arbitrary / conjugate-pair shifts
+Plan gen_krylov_plan(uint64_t run_seed, const GenOpts& o)
+{
+    Plan p;
+    p.prop = "C07";
+    p.mode = "krylov";
+    p.run_seed = run_seed;
+    Rng r = stream(run_seed, "script");
+    GenOpts g = o;
+    static const int fams[] = {F_SYM, F_SYM, F_HERM, F_GEN, F_GEN, F_GREGINV};
+    g.force_family = fams[r.below(6)];
+    TaskSpec t;
+    t.w = gen_world("C07", run_seed, g);
+    if (t.w.ncv > 20) t.w.ncv = 20;
+    if (t.w.ncv < 3 && t.w.n >= 3) t.w.ncv = 3;
+    t.w.nev = std::min(t.w.nev, t.w.ncv - (family_is_general(t.w.family) ? 2 : 1));
+    if (t.w.nev < 1) t.w.nev = 1;
+    if (t.w.mclass == M_BLOCKDIAG) t.w.nblock = 1 + (int) r.below((uint64_t) std::max(1, std::min(t.w.ncv - 1, t.w.n - 1)));
+    const long m = t.w.ncv;
+    Op i0 = gen_init(r, t.w, false);
+    if (i0.kind == OP_INIT0) { i0.kind = OP_INITV; i0.vclass = V_GENERIC; i0.vseed = r.next(); }
+    t.script.push_back(i0);
+    if (r.chance(0.6))
+    {
+        Op e;
+        e.kind = OP_KEXTEND;
+        e.maxit = 2 + (long) r.below((uint64_t) std::max<long>(1, m - 1));
+        t.script.push_back(e);
+    }
+    const int nrestart = (int) r.below(family_is_general(t.w.family) ? 9 : 13);
+    for (int i = 0; i < nrestart; i++)
+    {
+        Op rs;
+        rs.kind = OP_KRESTART;
+        rs.maxit = 1 + (long) r.below((uint64_t) std::max<long>(1, m - 1));
+        rs.sel = (int) r.below(3);
+        rs.vseed = r.next();
+        t.script.push_back(rs);
+        if (r.chance(0.1))
+        {
+            Op i1 = gen_init(r, t.w, false);
+            if (i1.kind == OP_INIT0) { i1.kind = OP_INITV; i1.vclass = V_GENERIC; i1.vseed = r.next(); }
+            t.script.push_back(i1);
+        }
+    }
+    p.tasks.push_back(t);
     return p;
 }
 }  // namespace sim
